@@ -170,3 +170,19 @@ func c18Segments(p string) (segs []string, ok bool) {
 	}
 	return segs, true
 }
+
+// c18RecL is the recorder with afero's optional Lstater interface (what OsFs and MemMapFs offer below a
+// wrapper in practice).
+type c18RecL struct{ *c18Rec }
+
+func (r c18RecL) LstatIfPossible(n string) (os.FileInfo, bool, error) {
+	r.rec("Lstat", n)
+	if r.inner == nil {
+		return nil, true, os.ErrNotExist
+	}
+	if l, ok := r.inner.(afero.Lstater); ok {
+		return l.LstatIfPossible(n)
+	}
+	fi, err := r.inner.Stat(n)
+	return fi, false, err
+}
